@@ -8,6 +8,7 @@ namespace MoThreads.ThreadTree
 def Call.jwork : Call → Option (List Nat × List JAct × Option Nat × List Nat)
   | .joining top work tl raised _ => some (top, work, tl, raised)
   | .mJ cs work raised => some (cs, work, none, raised)
+  | .mRJ _ _ res work raised2 => some (res, work, none, raised2)
   | _ => none
 
 def Call.isSpawn : Call → Bool
